@@ -61,6 +61,17 @@ func nearDupPerturbations() []perturbation {
 	add("required with default / required without", obj(sgen.M{"t": sgen.M{"type": "integer", "default": 8080}}, sgen.M{"required": []any{"t"}}), obj(sgen.M{"t": sgen.M{"type": "integer"}}, sgen.M{"required": []any{"t"}}), M{}, M{"t": 5})
 	add("required default 1 / required default 2", obj(sgen.M{"t": sgen.M{"type": "integer", "default": 1}}, sgen.M{"required": []any{"t"}}), obj(sgen.M{"t": sgen.M{"type": "integer", "default": 2}}, sgen.M{"required": []any{"t"}}), M{}, M{"t": 5})
 	add("title only (annotation)", obj(sgen.M{"t": str(sgen.M{"minLength": 2})}, sgen.M{"title": "First"}), obj(sgen.M{"t": str(sgen.M{"minLength": 2})}, sgen.M{"title": "Second"}), M{"t": "ab"}, M{"t": "a"})
+	add("untyped enum members differing only in JSON type", obj(sgen.M{"t": sgen.M{"enum": []any{1, 2, 3}}}, nil), obj(sgen.M{"t": sgen.M{"enum": []any{"1", "2", "3"}}}, nil), M{"t": 1}, M{"t": "1"}, M{"t": 4})
+	add("untyped enum true / \"true\"", obj(sgen.M{"t": sgen.M{"enum": []any{true, "x"}}}, nil), obj(sgen.M{"t": sgen.M{"enum": []any{"true", "x"}}}, nil), M{"t": true}, M{"t": "true"}, M{"t": "x"})
+	add("typed enum members", obj(sgen.M{"t": sgen.M{"type": "integer", "enum": []any{1, 2}}}, nil), obj(sgen.M{"t": sgen.M{"type": "integer", "enum": []any{1, 3}}}, nil), M{"t": 2}, M{"t": 3}, M{"t": 1})
+	add("minLength/maxLength inside allOf", obj(sgen.M{"label": sgen.M{"allOf": []any{obj(sgen.M{"code": str(nil)}, nil), sgen.M{"properties": sgen.M{"code": sgen.M{"minLength": 2, "maxLength": 4}}}}}}, nil),
+		obj(sgen.M{"label": sgen.M{"allOf": []any{obj(sgen.M{"code": str(nil)}, nil), sgen.M{"properties": sgen.M{"code": sgen.M{"minLength": 5, "maxLength": 8}}}}}}, nil),
+		M{"label": M{"code": "abcd"}}, M{"label": M{"code": "abcdef"}}, M{"label": M{"code": "a"}})
+	add("pattern inside allOf", obj(sgen.M{"label": sgen.M{"allOf": []any{obj(sgen.M{"tag": str(nil)}, nil), sgen.M{"properties": sgen.M{"tag": sgen.M{"pattern": "^a"}}}}}}, nil),
+		obj(sgen.M{"label": sgen.M{"allOf": []any{obj(sgen.M{"tag": str(nil)}, nil), sgen.M{"properties": sgen.M{"tag": sgen.M{"pattern": "^b"}}}}}}, nil),
+		M{"label": M{"tag": "ab"}}, M{"label": M{"tag": "ba"}})
+	// (two same-named nodes that differ only INSIDE anyOf are the listed finding K34: the comparison ignores the AnyOf field)
+	add("maxItems", obj(sgen.M{"t": sgen.M{"type": "array", "items": sgen.M{"type": "integer"}, "maxItems": 1}}, nil), obj(sgen.M{"t": sgen.M{"type": "array", "items": sgen.M{"type": "integer"}, "maxItems": 3}}, nil), M{"t": []any{1}}, M{"t": []any{1, 2}}, M{"t": []any{1, 2, 3, 4}})
 	add("additional property set", obj(sgen.M{"t": str(nil)}, nil), obj(sgen.M{"t": str(nil), "u": sgen.M{"type": "integer"}}, nil), M{"t": "x"}, M{"t": "x", "u": 1}, M{"t": "x", "u": "s"})
 	add("nullable", obj(sgen.M{"t": sgen.M{"type": "integer"}}, sgen.M{"required": []any{"t"}}), obj(sgen.M{"t": sgen.M{"type": []any{"integer", "null"}}}, sgen.M{"required": []any{"t"}}), M{"t": 1}, M{"t": nil})
 	add("description only (annotation)", obj(sgen.M{"t": str(sgen.M{"minLength": 2})}, sgen.M{"description": "first"}), obj(sgen.M{"t": str(sgen.M{"minLength": 2})}, sgen.M{"description": "second"}), M{"t": "ab"}, M{"t": "a"})
